@@ -481,6 +481,27 @@ func (wk *walker) envAction() {
 	}
 }
 
+// deployRounds runs n fair rounds of all controllers over deployment d1 and what it owns; ready: the workload controller
+// reports every Widget Ready after each round.
+func deployRounds(w *World, n int, ready bool) {
+	for i := 0; i < n; i++ {
+		w.RunPass("od", KOD("d1"))
+		for _, k := range w.CRKeys("ObjectSet") {
+			w.RunPass("os", k)
+		}
+		for _, k := range w.CRKeys("ObjectSetPhase") {
+			w.RunPass("ph", k)
+		}
+		if ready {
+			for k := range w.ListedObjects() {
+				if k.Kind == "Widget" && w.Store.Snapshot(k) != nil {
+					w.EnvSetWidgetStatus(k, "Ready")
+				}
+			}
+		}
+	}
+}
+
 // RandomWalk runs one seeded random schedule over scenario sc.
 func RandomWalk(w *World, sc Scenario, seed int64, o RandomOpts) {
 	w.AnnotationPhases = sc.Annotation
@@ -845,6 +866,16 @@ func moreScenarios() []Scenario {
 					w.RunPass("os", k)
 				}
 			}
+		}},
+		{Name: "deploy-midarchived", Setup: func(w *World) {
+			// revision 1 Available and serving, revision 2 (a failed update) archived as an intermediate revision, revision 3
+			// rolling out: the archived revisions are NOT the oldest ones
+			w.EnvCreate(NewObjectDeployment("d1", TemplateVariant(0)))
+			deployRounds(w, 4, true)
+			w.EnvSetTemplate(KOD("d1"), 1)
+			deployRounds(w, 3, false)
+			w.EnvSetTemplate(KOD("d1"), 2)
+			deployRounds(w, 6, false)
 		}},
 		{Name: "deploy-limit1", Setup: func(w *World) {
 			od := NewObjectDeployment("d1", TemplateVariant(0))
